@@ -417,6 +417,30 @@ theorem c01_gen_checked_arith (a b : Nat) :
     Math.Overflow.aws_add_u64_checked a b = resOfOption (addChecked a b) :=
   ⟨addChecked_gen a b, addSat_gen a b, mulChecked_gen a b, addU64Checked_gen a b⟩
 
+/-- `MIN_/MAX_BUFFER_GROWTH_READING_FILES` of source/file.c -/
+theorem c01_gen_file_growth :
+    MIN_BUFFER_GROWTH_READING_FILES = ByteBufFns.MIN_BUFFER_GROWTH_READING_FILES ∧
+    MAX_BUFFER_GROWTH_READING_FILES = ByteBufFns.MAX_BUFFER_GROWTH_READING_FILES := fileGrowth_gen
+
+/-! ## c01_normalize_sep (source/file.c) -/
+
+/-- `aws_normalize_directory_separator` touches bytes `[0, len)` only: the buffer header is unchanged, the state
+stays well-formed, no other slot changes, and every cell of the block from `len` on (the rest of the capacity) is
+exactly what it was. -/
+theorem c01_normalize_sep {s s' : State} {b : Nat} {r : Res} (hw : WF s) (e : step s (.normalizeSep b) = .ok (r, s')) :
+    WF s' ∧ s'.bufs = s.bufs ∧ s'.curs = s.curs ∧
+    (regionCells s'.mem.heap (s.bufs b).rid).drop (s.bufs b).len = (regionCells s.mem.heap (s.bufs b).rid).drop (s.bufs b).len := by
+  refine ⟨step_wf hw e, ?_⟩
+  simp only [step] at e
+  obtain ⟨h1, hcore, e⟩ := bind_ok e
+  cases e
+  refine ⟨?_, rfl, (bufNormalizeSep_spec (hw.bufOk b) hcore).2.1⟩
+  funext j
+  simp only [State.setBuf, State.setHeap]
+  split
+  · rename_i hj; rw [hj]
+  · rfl
+
 /-! ## c01_init_from_file (source/file.c) -/
 
 /-- `aws_byte_buf_init_from_file[_with_size_hint]` for every file behaviour (open failure, any `st_size`, any data,
